@@ -1,6 +1,6 @@
 #!/usr/bin/env python3
-"""tools/peg_try.py — developer helper: run texts (one per line of a file, or built-in samples) through
-the PEG model and the real parser and print mismatches.  usage: tools/peg_try.py [file-with-texts]"""
+"""checks/peg_try.py — developer helper: run texts (one per line of a file, or built-in samples) through
+the PEG model and the real parser and print mismatches.  usage: checks/peg_try.py [file-with-texts]"""
 import os
 import sys
 import time
